@@ -79,4 +79,40 @@ for n in order:
         rec["phase_pg_same"] = False
         rec["phase_pg"] = str(rec.get("phase_pg")) + " (history: space_group re-assigned on a used Phase)"
 
+# histories 2: phases whose POINT GROUP was stored explicitly (constructor argument, setter, PhaseList(point_groups=...),
+# constructor with a space group AND its matching point group) and that are then assigned a space group: the
+# space-group setter "overwrites any point group set before", so the point group must be the one of the new space group
+from orix.crystal_map import PhaseList  # noqa: E402
+from orix.quaternion import symmetry as _S  # noqa: E402
+
+_named = list(_S._groups)
+for k, n in enumerate(order[:230]):
+    rec = sgs[n - 1]
+    X = _named[k % len(_named)]
+    try:
+        want = get_point_group(n)
+        made = []
+        p1 = Phase(point_group=X)
+        p1.space_group = n
+        made.append(p1)
+        p2 = Phase(space_group=225)
+        p2.point_group = X.name            # resets the space group (with a warning) and stores X
+        p2.space_group = n
+        made.append(p2)
+        p3 = PhaseList(point_groups=[X, "m-3m"], names=["a", "b"])["a"]
+        p3.space_group = n
+        made.append(p3)
+        m = 1 + (n * 7) % 230
+        p4 = Phase(space_group=m, point_group=get_point_group(m))
+        p4.space_group = n
+        made.append(p4)
+        same = all(bool(q.space_group.number == n and q.point_group.shape == want.shape
+                        and np.allclose(q.point_group.data, want.data)
+                        and np.array_equal(q.point_group.improper, want.improper)) for q in made)
+    except Exception as e:  # noqa
+        same = False
+    if not same:
+        rec["phase_pg_same"] = False
+        rec["phase_pg"] = str(rec.get("phase_pg")) + f" (history: space group assigned to a Phase with a stored point group {X.name})"
+
 emit({"groups": groups, "extra": extra, "proper_groups": proper_groups, "sgs": sgs})
